@@ -51,18 +51,26 @@ Definition dkind_eqb (a b : dkind) : bool :=
 Definition kmem (k : dkind) (l : list dkind) : bool := existsb (dkind_eqb k) l.
 (* a dtype: its kind and its width in bits (8 .. 64) *)
 Definition dtype := (dkind * Z)%type.
-(* numpy.can_cast(from, to, "safe") on the integer / unsigned / float dtypes of 8 .. 64 bits *)
+(* numpy.can_cast(from, to, "safe") on the bool / integer / unsigned / float / complex dtypes (complex: 64, 128 bits) *)
 Definition safe_cast (from to : dtype) : bool :=
   let '(k1, b1) := from in let '(k2, b2) := to in
   match k1, k2 with
-  | KInt, KInt | KUInt, KUInt | KFloat, KFloat => (b1 <=? b2)%Z
+  | KBool, (KBool | KInt | KUInt | KFloat | KComplex) => true
+  | KInt, KInt | KUInt, KUInt | KFloat, KFloat | KComplex, KComplex => (b1 <=? b2)%Z
   | KUInt, KInt => (b1 <? b2)%Z
   | (KInt | KUInt), KFloat => (((b1 <=? 16) && (32 <=? b2)) || (64 <=? b2))%Z
+  | (KInt | KUInt), KComplex => (((b1 <=? 16) && (64 <=? b2)) || (128 <=? b2))%Z
+  | KFloat, KComplex => (2 * b1 <=? b2)%Z
   | _, _ => false
   end.
+(* the bool / integer / unsigned / float / complex dtypes numpy and netCDF share (float16 aside) *)
+Definition all_numeric : list dtype :=
+  [(KBool, 8); (KInt, 8); (KInt, 16); (KInt, 32); (KInt, 64); (KUInt, 8); (KUInt, 16); (KUInt, 32); (KUInt, 64);
+   (KFloat, 32); (KFloat, 64); (KComplex, 64); (KComplex, 128)]%Z.
 Record dtype_rule := mk_dtype_rule { dr_disk : list dkind; dr_data : list dkind; dr_unsafe_only : bool;
                                      dr_unless_packed : bool }.
-Definition model_dtype_rule : dtype_rule := mk_dtype_rule [KInt; KUInt; KFloat] [KInt; KUInt; KFloat] true true.
+Definition model_dtype_rule : dtype_rule :=
+  mk_dtype_rule [KBool; KInt; KUInt; KFloat; KComplex] [KBool; KInt; KUInt; KFloat; KComplex] true true.
 Definition forgets (r : dtype_rule) (remembered : dtype) (data : dtype) (packed : bool) : bool :=
   kmem (fst remembered) (dr_disk r) && kmem (fst data) (dr_data r)
   && (if dr_unsafe_only r then negb (safe_cast data remembered) else true)
